@@ -20,7 +20,9 @@ EXPLANATION = (
     "serverless Methods::inner_call, the callee comes from method_with_name(request.method), and notification paths "
     "invoke nothing; R5 the failure-class constants (-32601 on lookup miss, -32602 via invalid_params, prepare_error's "
     "-32600/-32700 split, -32603 for a failed blocking task / unsupported subscriptions); R6 handle_rpc_call has exactly "
-    "the two transport callers and the two prefix sniffers agree on window 128, is_ascii_whitespace and the start bytes. "
+    "the two transport callers and the two prefix sniffers agree on window 128, is_ascii_whitespace and the start bytes; "
+    "R7 the four request/notification decoders take their value from serde_json::from_slice/from_str (which reject "
+    "trailing bytes) and no hand-driven serde_json::Deserializer in the library crates returns successfully without end(). "
     "NOT decided: JSON well-formedness for all inputs (serde_json), handler-result equality, boundary arithmetic."
 )
 RULE_TEXT = "instances = response-constructor sites with an id in scope, handler invocations, classification paths, sink writes per path, sniffers"
@@ -468,7 +470,81 @@ def r6_transport_agreement(ctx):
         R.check(v[2] == (91, 123), "C01.R6", "sniffer:%s:start-bytes" % k, "%s accepts `{` and `[`" % k, "%s start bytes are %s, expected (91, 123)" % (k, v[2]), None)
 
 
-RULES = [r1_id_echo, r1b_handler_args, r2_classify_once, r3_ws_reply_once, r4_invocation_authority, r5_failure_classes, r6_transport_agreement]
+DESER_CTOR = r"^serde_json::Deserializer::<.*>::(from_slice|from_str|from_reader|new)$|^serde_json::de::Deserializer::<.*>::(from_slice|from_str|from_reader|new)$"
+DESER_END = r"^serde_json::(de::)?Deserializer::<.*>::end$"
+WRAPPERS = r"^jsonrpsee_server::utils::deserialize_with_ext::(call|notif)::(from_slice|from_str)$"
+
+
+def _hand_driven_scan(F, R, crates):
+    """every hand-driven serde_json::Deserializer must be asked `end()` on every non-error path: otherwise a value
+    followed by trailing bytes is accepted where serde_json::from_slice/from_str answer a syntax error"""
+    n = 0
+    for b in F.real_bodies():
+        if b.crate not in crates or is_test_body(b):
+            continue
+        ctors = b.calls_to(DESER_CTOR)
+        if not ctors:
+            continue
+        ends = {c.bb for c in b.calls_to(DESER_END)}
+        errs = {c.bb for c in b.calls_to(r"FromResidual.*::from_residual$")}
+        # blocks that build an Err(..) result also count as error exits
+        for bi, blk in enumerate(b.blocks):
+            for st in blk["st"]:
+                if st["s"] == "assign" and st["pl"]["l"] == 0 and st["rv"]["k"] == "agg" and st["rv"].get("variant") == "Err":
+                    errs.add(bi)
+        streams = b.calls_to(r"^serde_json::(de::)?Deserializer::<.*>::into_iter$")
+        for i, c in enumerate(sorted(ctors, key=lambda x: x.bb)):
+            # a StreamDeserializer (into_iter) is the documented way to read a *prefix*; its user tracks byte_offset()
+            if any(arg_is_local(b, x.args[0], c.dest["l"]) for x in streams):
+                continue
+            n += 1
+            ok = flow.all_paths_pass(b, c.bb, ends | errs)
+            R.check(ok, "C01.R7", "%s:hand-driven-deserializer#%d" % (fkey(b), i), "the hand-driven Deserializer is asked end() on every success path", "%s drives a serde_json::Deserializer by hand and returns successfully without calling end(): a valid value followed by trailing bytes is accepted instead of being a syntax error" % short(b.path), where(c))
+    return n
+
+
+def r7_whole_message(ctx):
+    """a message is decoded as a whole: the request/notification decoders take their value from serde_json::from_slice /
+    from_str (which reject trailing bytes), and no hand-driven Deserializer skips the end-of-input check"""
+    F, R = ctx.F, ctx.R
+    tr = ctx.tracer(follow_callers=False, follow_fields=False, inline_calls=False)
+    n = 0
+    for b in F.find(WRAPPERS):
+        R.fn(b)
+        n += 1
+        lv = []
+        for blk in b.blocks:
+            for st in blk["st"]:
+                if st["s"] == "assign" and st["pl"]["l"] == 0 and not st["pl"].get("p") and st["rv"]["k"] == "agg" and st["rv"].get("variant") == "Ok":
+                    lv += tr.origins(b, st["rv"]["ops"][0])
+        if not lv:
+            R.anchor_lost("C01.R7", "Ok(..) result of %s" % short(b.path))
+            continue
+        srcs = sorted({short(l.detail.get("callee") or "?") if l.kind == "call" else l.kind for l in lv if l.kind != "const"})
+        strict = [l for l in lv if l.kind == "call" and re.search(r"^serde_json::(de::)?(from_slice|from_str)$", l.detail.get("callee") or "")]
+        loose = [l for l in lv if l.kind == "call" and re.search(r"Deserialize(<'\w+>)?>?::deserialize$|Deserializer.*::deserialize_", l.detail.get("callee") or "")]
+        hand_ok = bool(loose) and bool(b.calls_to(DESER_END))
+        R.check(bool(strict) and not loose or hand_ok, "C01.R7", "%s:strict-decoder" % fkey(b), "the decoded message comes from serde_json::from_slice/from_str (whole input consumed)", "%s no longer decodes with serde_json::from_slice/from_str (value comes from %s): trailing bytes after a valid message are not rejected, so `{..}garbage` runs the handler instead of being answered -32700" % (short(b.path), srcs), "%s:%d" % (b.file, b.lo))
+    R.floor("C01.R7", n, 4, "deserialize_with_ext decoders")
+    _hand_driven_scan(F, R, (SERVER, CORE, "jsonrpsee_types"))
+
+
+def control_hand_driven(ctx):
+    from .common import control
+
+    def run(r):
+        _hand_driven_scan(ctx.F, r, ("verif_fixtures",))
+        # the strict twin must not be reported
+        for v in r.violations:
+            if "decode_whole" in v["key"]:
+                ctx.R.bad("C01.R7.control", "control:strict-twin-reported", "the rule reports the strict twin decode_whole (it calls end()): the rule is wrong")
+    control(ctx, "C01.R7", "Deserializer::from_slice + deserialize without end()", run)
+
+
+CONTROLS = [control_hand_driven]
+
+
+RULES = [r1_id_echo, r1b_handler_args, r2_classify_once, r3_ws_reply_once, r4_invocation_authority, r5_failure_classes, r6_transport_agreement, r7_whole_message]
 
 LEVEL_TEXT = (
     "Structural necessary conditions of the request/reply contract decided from the type-checked program for every "
